@@ -100,6 +100,18 @@ pub enum Obstacle {
         hi: f64,
         gap: Option<(usize, f64, f64)>,
     },
+    /// {x : d_k(x_k, c) < r} where x_k is the `comp`-th component of the state and d_k that
+    /// component's own (unweighted) metric, computed by the harness: a cylinder that depends on
+    /// one component only — also on one the space metric ignores (weight 0).
+    CompBall { comp: usize, c: Vec<f64>, r: f64 },
+}
+
+/// "the `comp`-th component lies within `r` of `c`" (component's own unweighted metric)
+#[derive(Serialize, Deserialize, Clone, Debug, PartialEq)]
+pub struct CompCond {
+    pub comp: usize,
+    pub c: Vec<f64>,
+    pub r: f64,
 }
 
 #[derive(Serialize, Deserialize, Clone, Debug, PartialEq, Default)]
@@ -115,6 +127,10 @@ pub enum GoalSampler {
     Harness,
     /// consumes the planner's generator
     Planner,
+    /// harness-owned stream; returns the target with only one component redrawn — the one the
+    /// goal's component condition names, else the first component of weight 0 — so that goal
+    /// samples lie at distance 0 from each other while differing in validity ("turn in place")
+    Turn,
 }
 
 #[derive(Serialize, Deserialize, Clone, Debug, PartialEq)]
@@ -123,6 +139,10 @@ pub struct GoalSpec {
     pub radius: f64,
     pub sampler: GoalSampler,
     pub sampler_seed: u64,
+    /// additional requirement on one component (goal predicates that look at a component the
+    /// space metric ignores); goal samples satisfy it
+    #[serde(default, skip_serializing_if = "Option::is_none")]
+    pub comp: Option<CompCond>,
 }
 
 #[derive(Serialize, Deserialize, Clone, Debug, PartialEq)]
